@@ -1,6 +1,8 @@
 import sys, os
 sys.path.insert(0, os.path.join(os.path.dirname(os.path.abspath(__file__)), '..', 'engine'))
 from driver import *
+sys.path.insert(0, os.path.dirname(os.path.abspath(__file__)))
+import common_jobs
 
 
 def main(tier):
@@ -9,10 +11,11 @@ def main(tier):
                  'cross-check': 'full period unrolled for the square channels at f = 2047, 2046, 2040 (quick) / 2047..2016 (thorough)',
                  'sequence': 'the shift-register update equals the documented one (feedback bit0^bit1 into bit 14, and into bit 6 in 7-bit mode) for every state, so the output sequence is the hardware\'s maximal 15-bit / 7-bit sequence from the all-ones reset state',
                  'outside': 's = 14, 15; long-run period measurement; the one machine cycle after a trigger in which the channel timer is not clocked'}
-    ck.assumptions = ['audioInv (proved inductive in C18)']
+    ck.assumptions = ['audioInv (field ranges; its inductive step is re-proved in this check)']
     fs = [2047, 2046, 2040] if tier == 'quick' else list(range(2016, 2048))
     jobs = [('audio', 'VerifSquareClock', {'ch': c}) for c in (1, 2)] + [('audio', 'VerifSquarePeriod', {'ch': c, 'f': f}) for c in (1, 2) for f in fs]
     jobs += [('audio', 'VerifWaveClock', {}), ('audio', 'VerifNoiseClock', {}), ('audio', 'VerifNoiseTrigger', {})]
+    common_jobs.run_audio_inv(ck)
     ck.run(jobs, timeout_ms=300000, max_unwind=200)
     ck.finish(explanation='one-clock countdown lemmas for the four channel timers and the noise shift register, plus bounded period unrollings')
 
